@@ -84,6 +84,12 @@ def r1_schema(ctx, repo, cname):
     rb = range_bounds(ol.iter)
     penv = {}
     dom_ok = (rb[0] is None or text(rb[0]) == "0") and access_path(rb[1]) == mname and rb[2] is None
+    rets_ = {access_path(r_.value) for r_ in ast.walk(fn) if isinstance(r_, ast.Return) and r_.value is not None}
+    appends_ = [c_ for c_ in calls_in(ol) if isinstance(c_.func, ast.Attribute) and c_.func.attr == "append" and access_path(c_.func.value) in rets_]
+    if not dom_ok and not appends_:
+        # not the schema "one objective appended per round": the loop is something else (the identities are decided by R5/R6)
+        ctx.inconclusive("R1", C, where(mod, ol), "the loop %s does not append one objective per round to the returned list: schema not recognised" % text(ol.iter), key="schema")
+        return None
     if not dom_ok:
         ctx.violated("R1", C, where(mod, ol), "the objective loop %s does not produce objectives 0..m-1" % text(ol.iter), key="schema")
         return None
